@@ -1121,6 +1121,10 @@ func smtSym(name string) string {
 	return "|" + strings.ReplaceAll(strings.ReplaceAll(name, "|", "_"), "\\", "_") + "|"
 }
 
+// varSym is the SMT symbol of a variable: name plus width, so that equally named inputs of different
+// harnesses sharing one solver process do not clash.
+func varSym(t *Term) string { return smtSym(fmt.Sprintf("%s!%d", t.Name, t.W)) }
+
 func constStr(t *Term) string {
 	if t.W == 0 {
 		if t.Val == 1 {
@@ -1148,7 +1152,7 @@ func headStr(t *Term, ref func(*Term) string) string {
 	case OpConst:
 		return constStr(t)
 	case OpVar:
-		return smtSym(t.Name)
+		return varSym(t)
 	case OpExtract:
 		return fmt.Sprintf("((_ extract %d %d) %s)", t.Hi, t.Lo, ref(t.Args[0]))
 	case OpZExt:
